@@ -119,6 +119,13 @@ def instances(tier, seed):
         method = ['MS', 'SS', 'DC'][oi % 3]
         N = 2 + (oi % 2)
         add(kind='order', spec=fill_values(pmodel(), N), cfg=Cfg(method, N=N, M=1, intg='rk', grid=fam.G_UNI, degree=2, scheme='radau'), order=order)
+    # guesses that DEPEND on a parameter value: a time-expression guess on a parametric horizon, a guess written in a parameter;
+    # a value changed after the transcription must reach the starting point as it does when written in
+    for oi, order in enumerate([['T', 'pT2'], ['T', 'a2'], ['T', 'pT2', 'a2', 'T2'], ['pT2', 'T']]):
+        for method, g in (('MS', fam.G_UNI), ('DC', fam.G_UNI_LT), ('MS', fam.G_GEO_LOC)):
+            sp = fam.with_horizon(fill_values(pmodel(), 2), H[5])
+            sp.initial = [(X(0), t * 2 + 1), (X(1), Pg('a') * 3), (U(0), t * Pg('a'))]
+            add(kind='order', spec=sp, cfg=Cfg(method, N=2, M=1, intg='rk', grid=g, degree=2, scheme='radau'), order=order)
     return items
 
 
@@ -170,6 +177,7 @@ def run_order(item):
         'pc2': ('pc', [[Fr(100 + k) for k in range(N)]]), 'pp2': ('pp', [[Fr(200 + k) for k in range(N + 1)]]),
         'vec2': ('vec', [[Fr(300 + k) for k in range(N)], [Fr(400 + k) for k in range(N)]]),
     }
+    newvals['pT2'] = ('pT', Fr(5, 2))
     for p_ in spec.params:          # '<name>0' = set the parameter back to its originally declared value
         newvals[p_.name + '0'] = (p_.name, copy.deepcopy(p_.value))
     s_cur = copy.deepcopy(spec)
